@@ -33,6 +33,8 @@ type Case struct {
 	Enc       string     `json:"enc"`
 	SrvDirect bool       `json:"srv_direct"`
 	CliDirect bool       `json:"cli_direct,omitempty"`
+	Unix      bool       `json:"unix,omitempty"` // server mode: real unix sockets instead of frame links
+	Poll      bool       `json:"poll,omitempty"` // server mode over unix sockets: poll-mode server
 	Conns     []ConnSpec `json:"conns"`
 }
 
@@ -80,6 +82,10 @@ func gen(t *rapid.T) Case {
 		return c
 	}
 	c.Mode = "server"
+	if rapid.IntRange(0, 2).Draw(t, "unix") == 0 {
+		c.Unix = true
+		c.Poll = rapid.Bool().Draw(t, "poll")
+	}
 	nc := rapid.IntRange(1, 4).Draw(t, "conns")
 	for i := 0; i < nc; i++ {
 		var cs ConnSpec
@@ -165,6 +171,9 @@ func valid(c Case) bool {
 			}
 		}
 	}
+	if c.Poll && !c.Unix || (c.Unix && c.Mode != "server") {
+		return false
+	}
 	return c.Mode == "server" || (c.Mode == "client" && len(c.Conns) == 1)
 }
 
@@ -181,8 +190,6 @@ func run(c Case) kit.Outcome {
 // runServer: scripted clients write request frames (batched by the harness) to a pipelining
 // server; the execution log and the response order are judged.
 func runServer(c Case) kit.Outcome {
-	env := kit.NewEnv()
-	srv := kit.NewServer(env, true, c.SrvDirect)
 	type cstate struct {
 		link *kit.FrameLink
 		cli  *kit.ScriptClient
@@ -191,81 +198,90 @@ func runServer(c Case) kit.Outcome {
 		reqs []kit.ReqHeader
 	}
 	conns := make([]*cstate, len(c.Conns))
-	defer func() {
-		env.OpenAll()
-		for _, cs := range conns {
-			if cs != nil {
-				cs.link.C.Close()
-			}
+	var env *kit.Env
+	gatedConn := -1
+	if c.Unix {
+		// real unix sockets (optionally a poll-mode server): requests are written in batches of
+		// frames per write call
+		m := kit.Modes{Enc: c.Enc, SrvPipelining: true, SrvDirect: c.SrvDirect, Link: "unix", Poll: c.Poll}
+		sess, err := kit.NewSessionWith(m, kit.FailCodecFor("server"), kit.FailCodecFor("client"))
+		if err != nil {
+			return kit.Undecided("%v", err)
 		}
-		for _, cs := range conns {
-			if cs != nil {
-				select {
-				case <-cs.done:
-				case <-time.After(5 * time.Second):
+		env = sess.Env
+		defer sess.Close()
+		defer func() {
+			env.OpenAll()
+			for _, cs := range conns {
+				if cs != nil && cs.cli != nil {
+					cs.cli.Close()
 				}
 			}
-		}
-	}()
-	for i, spec := range c.Conns {
-		link := kit.NewFrameLink()
-		link.S.SetHold(true)
-		st := &cstate{link: link}
-		st.done = kit.ServeLinkWith(srv, link, c.Enc, c.SrvDirect, &kit.FailCodec{Side: "server"})
-		st.cli = kit.NewScriptClient(link, c.Enc, env.Tick)
-		for k, r := range spec.Reqs {
-			id := uint64(i+1)<<32 | uint64(k+1)
-			args, method := payload(id, r, spec.GateFirst && k == 0 && r.Kind == "ok")
-			st.ids = append(st.ids, id)
-			st.reqs = append(st.reqs, kit.ReqHeader{Seq: uint64(k), Method: method, Args: args})
-		}
-		conns[i] = st
-	}
-	// every connection's frames are written, then released to the server in drawn batches
-	var wg sync.WaitGroup
-	var hung int32
-	gatedConn := -1
-	for i, st := range conns {
-		if c.Conns[i].GateFirst && c.Conns[i].Reqs[0].Kind == "ok" {
-			gatedConn = i
-		}
-		for _, rq := range st.reqs {
-			st.cli.Send(rq)
-		}
-	}
-	release := func(i int) {
-		defer wg.Done()
-		st, spec := conns[i], c.Conns[i]
-		left := len(st.reqs)
-		bi := 0
-		for left > 0 {
-			b := 1
-			if len(spec.Batches) > 0 {
-				b = spec.Batches[bi%len(spec.Batches)]
-				bi++
+		}()
+		for i, spec := range c.Conns {
+			rc, err := kit.DialRaw("unix", sess.Addr)
+			if err != nil {
+				return kit.Undecided("dial: %v", err)
 			}
-			if b > left {
-				b = left
+			st := &cstate{cli: kit.NewScriptClientOn(rc, c.Enc, env.Tick)}
+			for k, r := range spec.Reqs {
+				id := uint64(i+1)<<32 | uint64(k+1)
+				args, method := payload(id, r, spec.GateFirst && k == 0 && r.Kind == "ok")
+				st.ids = append(st.ids, id)
+				st.reqs = append(st.reqs, kit.ReqHeader{Seq: uint64(k), Method: method, Args: args})
 			}
-			st.link.S.Release(b)
-			left -= b
-			if !st.link.S.WaitReaderIdle(bound) {
-				hung = 1
-				return
+			conns[i] = st
+			if spec.GateFirst && spec.Reqs[0].Kind == "ok" {
+				gatedConn = i
 			}
 		}
-	}
-	for i := range conns {
-		if i == gatedConn {
-			continue
+		var swg sync.WaitGroup
+		for i, st := range conns {
+			swg.Add(1)
+			go func(i int, st *cstate) {
+				defer swg.Done()
+				spec := c.Conns[i]
+				left, bi, off := len(st.reqs), 0, 0
+				for left > 0 {
+					b := 1
+					if len(spec.Batches) > 0 {
+						b = spec.Batches[bi%len(spec.Batches)]
+						bi++
+					}
+					if b > left {
+						b = left
+					}
+					st.cli.SendBatch(st.reqs[off : off+b])
+					off += b
+					left -= b
+				}
+			}(i, st)
 		}
-		wg.Add(1)
-		go release(i)
-	}
-	if gatedConn >= 0 {
-		// the gated connection gets all its frames first; the others must finish while it is blocked
-		wg.Add(1)
-		go release(gatedConn)
+		swg.Wait()
+	} else {
+		o, e, g := setupFrames(c, func(i int, link *kit.FrameLink, cli *kit.ScriptClient, done chan struct{}, ids []uint64, reqs []kit.ReqHeader) {
+			conns[i] = &cstate{link: link, cli: cli, done: done, ids: ids, reqs: reqs}
+		})
+		if o != nil {
+			return *o
+		}
+		env, gatedConn = e, g
+		defer func() {
+			env.OpenAll()
+			for _, cs := range conns {
+				if cs != nil {
+					cs.link.C.Close()
+				}
+			}
+			for _, cs := range conns {
+				if cs != nil {
+					select {
+					case <-cs.done:
+					case <-time.After(5 * time.Second):
+					}
+				}
+			}
+		}()
 	}
 	independent := true
 	for i, st := range conns {
@@ -291,10 +307,6 @@ func runServer(c Case) kit.Outcome {
 		if !st.cli.WaitResponses(len(st.reqs), bound) {
 			return kit.Undecided("gated connection %d: only %d of %d responses arrived within %v after its gate was opened", gatedConn, len(st.cli.Responses()), len(st.reqs), bound)
 		}
-	}
-	wg.Wait()
-	if hung != 0 {
-		return kit.Undecided("a server reader did not consume released frames within %v", bound)
 	}
 	// judge per connection
 	log := env.Log()
@@ -352,6 +364,12 @@ func runServer(c Case) kit.Outcome {
 		}
 	}
 	out := kit.Outcome{Counters: map[string]int{"requests": total}, Classes: []string{"server-side", "enc=" + c.Enc}}
+	if c.Unix {
+		out.Classes = append(out.Classes, "unix-sockets")
+	}
+	if c.Poll {
+		out.Classes = append(out.Classes, "poll")
+	}
 	if (total >= 3 && failingNotLast) || maxBatch > 1 || len(conns) > 1 {
 		out.Nontrivial = true
 	}
@@ -362,6 +380,64 @@ func runServer(c Case) kit.Outcome {
 		out.Classes = append(out.Classes, "batched")
 	}
 	return out
+}
+
+// setupFrames builds the frame-link variant: every connection's frames are written, then released
+// to the server in drawn batches.
+func setupFrames(c Case, reg func(i int, link *kit.FrameLink, cli *kit.ScriptClient, done chan struct{}, ids []uint64, reqs []kit.ReqHeader)) (*kit.Outcome, *kit.Env, int) {
+	env := kit.NewEnv()
+	srv := kit.NewServer(env, true, c.SrvDirect)
+	type fstate struct {
+		link *kit.FrameLink
+		cli  *kit.ScriptClient
+		reqs []kit.ReqHeader
+	}
+	fs := make([]*fstate, len(c.Conns))
+	gatedConn := -1
+	for i, spec := range c.Conns {
+		link := kit.NewFrameLink()
+		link.S.SetHold(true)
+		done := kit.ServeLinkWith(srv, link, c.Enc, c.SrvDirect, &kit.FailCodec{Side: "server"})
+		cli := kit.NewScriptClient(link, c.Enc, env.Tick)
+		var ids []uint64
+		var reqs []kit.ReqHeader
+		for k, r := range spec.Reqs {
+			id := uint64(i+1)<<32 | uint64(k+1)
+			args, method := payload(id, r, spec.GateFirst && k == 0 && r.Kind == "ok")
+			ids = append(ids, id)
+			reqs = append(reqs, kit.ReqHeader{Seq: uint64(k), Method: method, Args: args})
+		}
+		fs[i] = &fstate{link: link, cli: cli, reqs: reqs}
+		reg(i, link, cli, done, ids, reqs)
+		if spec.GateFirst && spec.Reqs[0].Kind == "ok" {
+			gatedConn = i
+		}
+		for _, rq := range reqs {
+			cli.Send(rq)
+		}
+	}
+	for i := range fs {
+		go func(i int) {
+			st, spec := fs[i], c.Conns[i]
+			left, bi := len(st.reqs), 0
+			for left > 0 {
+				b := 1
+				if len(spec.Batches) > 0 {
+					b = spec.Batches[bi%len(spec.Batches)]
+					bi++
+				}
+				if b > left {
+					b = left
+				}
+				st.link.S.Release(b)
+				left -= b
+				if !st.link.S.WaitReaderIdle(bound) {
+					return
+				}
+			}
+		}(i)
+	}
+	return nil, env, gatedConn
 }
 
 // runClient: one goroutine issues Go calls on one shared Done channel over a pipelined real
@@ -448,11 +524,11 @@ func head(a []int, n int) []int {
 var prop = kit.Property[Case]{
 	ID:    "C05",
 	Level: "exploration",
-	Rule:  "rapid-generated cases of two kinds. Server side: 1-4 scripted client connections each writing 2-300 request frames (ok / failing handler / unknown method / undecodable args / unencodable reply; sizes 16 B - 70 KB incl. varint and 64 KiB boundaries; 4 handler shapes) released to a pipelining real Server in drawn batches of 1..64 frames (direct or asynchronous IO, 4 header encoders); oracle: handler executions per connection are in send order with disjoint [start,end] tick intervals, response frames appear in request order, and a connection whose first handler is gated does not delay the others. Client side: one goroutine issues 2-300 Go calls of those classes on one shared Done channel over a real Conn with SetPipelining(true) to a pipelining Server; oracle: arrival order on Done == issue order for every completion carried by a response. Non-trivial: >= 3 requests with a failing one that is not last, or a batch > 1, or > 1 connection; distinct by SHA-1 of the case.",
+	Rule:  "rapid-generated cases of two kinds. Server side: 1-4 scripted client connections each writing 2-300 request frames (ok / failing handler / unknown method / undecodable args / unencodable reply; sizes 16 B - 70 KB incl. varint and 64 KiB boundaries; 4 handler shapes) delivered to a pipelining real Server in drawn batches of 1..64 frames - over frame links (held and released) or over real unix sockets with one write call per batch, against non-poll and poll-mode servers (direct or asynchronous IO, 4 header encoders); oracle: handler executions per connection are in send order with disjoint [start,end] tick intervals, response frames appear in request order, and a connection whose first handler is gated does not delay the others. Client side: one goroutine issues 2-300 Go calls of those classes on one shared Done channel over a real Conn with SetPipelining(true) to a pipelining Server; oracle: arrival order on Done == issue order for every completion carried by a response. Non-trivial: >= 3 requests with a failing one that is not last, or a batch > 1, or > 1 connection; distinct by SHA-1 of the case.",
 	Assumptions: []string{
 		"pings are not 'requests executed by a handler' and are not part of the ordering oracle",
 		"calls that fail locally without a response (request cannot be encoded, connection lost) are recorded, their relative order is not asserted (DESIGN.md C05 scope note)",
-		"poll-mode servers are covered by the real-socket variant when built; this check uses non-poll ServeCodec",
+		"one third of the server-side cases run over real unix sockets (half of them against a poll-mode server), the rest over frame links",
 	},
 	Gen: gen,
 	Run: run,
